@@ -101,7 +101,8 @@ def C06_FullNodeOffInert : Prop :=
   ∀ (soft : Soft Unit) (s : Node Unit) (p : Nat) (f : Frame), s.on = false → nodeRx soft s p f = .done s
 
 /-- What the code gives: it holds for routers (explicit guard) and for every node whose interfaces are all
-disabled — the invariant "not ON ⇒ interfaces disabled" is C12's (F-14). -/
+disabled — the invariant "not ON ⇒ interfaces disabled" is C12's (it holds in every reachable state since the
+repair of F-14; `Gen.Filter.powerGuard` keeps the missing guards visible). -/
 theorem C06_node_off_inert_partial (soft : Soft W) (s : Node W) (p : Nat) (f : Frame) (hoff : s.on = false)
     (h : s.kind = .router ∨ ∀ i ∈ s.ifaces, i.enabled = false) : nodeRx soft s p f = .done s := by
   rcases h with hk | hall
@@ -112,8 +113,9 @@ theorem C06_node_off_inert_partial (soft : Soft W) (s : Node W) (p : Nat) (f : F
     | none => rfl
     | some i => exact hall i (List.mem_of_getElem? hi)
 
-/-- a host that is OFF with its NIC still enabled (reachable on the unchanged tree through
-`power_off` with `shut_down_duration = 0`, F-14) -/
+/-- a host that is OFF with its NIC still enabled (was reachable on the unchanged tree through `power_off` with
+`shut_down_duration = 0`, F-14; after C12's repair no request sequence produces it any more, but nothing in
+`HostNode.receive_frame` itself excludes it) -/
 def exOffHost : Node Unit :=
   { kind := .host, on := false, ifaces := [{ enabled := true, mac := 7, ip := 0x0A000202#32, mask := 0xFFFFFF00#32 }],
     acls := fun _ => Acl.empty 0 .deny, sw := () }
@@ -215,7 +217,7 @@ theorem C06_router_deny_inert (soft : Soft W) (s : Node W) (p : Nat) (f : Frame)
 
 /-- The same through the interface: the frame arrives on an enabled interface, addressed to it, TTL alive. -/
 theorem C06_router_deny_inert_rx (soft : Soft W) (s : Node W) (p : Nat) (i : Iface) (f f' : Frame)
-    (hi : s.ifaces[p]? = some i) (hg : ifaceRx s.kind i f = .up f')
+    (hi : s.ifaces[p]? = some i) (hg : ifaceRx s.kind s.ifaces i f = .up f')
     (hk : s.kind = .router) (hon : s.on = true) (hsub : subjectToAcl f' = some true)
     (hdeny : (isPermitted (s.acls .router) f'.pkt).1 = false) :
     nodeRx soft s p f = .done (s.setAcl .router (isPermitted (s.acls .router) f'.pkt).2.2) := by
@@ -1084,7 +1086,7 @@ theorem C06_gen_router_order :
 
 theorem C06_gen_iface_order :
     Gen.Filter.nicOrder = ifaceOrder ∧ Gen.Filter.switchPortOrder = ifaceOrder ∧ Gen.Filter.routerIfOrder = ifaceOrder ∧
-    Gen.Filter.sendGuardFirst = true := by decide
+    Gen.Filter.sendGuardFirst = true ∧ Gen.Filter.nicUnicastNeedsOwnIp = nicUnicastNeedsOwnIp := by decide
 
 theorem C06_gen_power_guard :
     Gen.Filter.powerGuard = [("router", powerGuard .router), ("firewall", powerGuard .firewall),
